@@ -48,6 +48,9 @@ def enumerate_cases(tier):
                     if func in ("argmax", "nanargmax", "argmin", "nanargmin") and fill == "nan":
                         continue  # arg-reductions get integer fills only
                     yield {"dt": dt, "func": func, "dtype": req, "fill": fill, "data": None}
+                    if fill is None and req in (None, "<f4"):
+                        # same cell on a layout where one block's labels are all missing (legal: they belong to no group)
+                        yield {"dt": dt, "func": func, "dtype": req, "fill": fill, "data": "missing-block"}
     for dt in ("<M8[ns]", "<m8[s]"):
         for func in DT_FUNCS:
             yield {"dt": dt, "func": func, "dtype": None, "fill": None, "data": None}
@@ -66,6 +69,11 @@ def cases(draw, tier="quick"):
         fill = 7
     n = draw(st.integers(2, 10))
     labels = draw(st.lists(st.integers(0, 2), min_size=n, max_size=n))
+    if draw(st.booleans()):
+        # a run of missing labels (may cover a whole block)
+        a = draw(st.integers(0, n - 1))
+        b = min(n, a + draw(st.integers(1, n)))
+        labels = [None if a <= i < b and i != 0 else x for i, x in enumerate(labels)]
     vals = draw(st.lists(st.integers(0, 3), min_size=n, max_size=n))
     return {"dt": dt, "func": func, "dtype": draw(st.sampled_from(REQ_DTYPES)), "fill": fill, "data": {"v": vals, "by": labels}}
 
@@ -108,9 +116,12 @@ def numpy_table(dt, func, req, fill):
 
 def build(case):
     dt = np.dtype(case["dt"])
-    if case.get("data"):
+    if case.get("data") == "missing-block":
+        v = np.array([1, 0, 2, 3, 1, 2, 3, 1, 1, 2, 0, 1])
+        by = np.array([0, 0, 1, 1, np.nan, np.nan, np.nan, np.nan, 0, 1, 1, 0])
+    elif case.get("data"):
         v = np.array(case["data"]["v"])
-        by = np.array(case["data"]["by"])
+        by = np.array([np.nan if b is None else b for b in case["data"]["by"]], dtype=float) if None in case["data"]["by"] else np.array(case["data"]["by"])
     else:
         v = np.array([1, 0, 2, 3, 1, 2, 0, 1])
         by = np.array([0, 0, 1, 1, 0, 1, 1, 0])
@@ -127,7 +138,10 @@ def build(case):
 def plans(n, labels):
     half = n // 2 or 1
     out = [("eager", e, None) for e in ENGINES]
-    for chunks in ([n], [half, n - half] if n > 1 else [n]):
+    chunkings = [[n], [half, n - half] if n > 1 else [n]]
+    if n == 12:
+        chunkings = [[n], [4, 4, 4]]
+    for chunks in chunkings:
         for method, reindex in (("map-reduce", True), ("map-reduce", False), ("cohorts", None), ("blockwise", None), (None, None)):
             out.append(("chunked", (method, reindex), chunks))
     return out
@@ -149,7 +163,7 @@ def execute(case) -> Outcome:
         kw["finalize_kwargs"] = {"q": [0.25, 0.75]}
     if case.get("dtype") is not None:
         kw["dtype"] = np.dtype(case["dtype"])
-    present = sorted(set(by.tolist()))
+    present = sorted(set(x for x in by.tolist() if x == x))
     if case.get("fill") is not None:
         kw["fill_value"] = unnum(case["fill"])
         kw["expected_groups"] = np.array(present + [max(present) + 5])
